@@ -1,0 +1,713 @@
+//go:build verif
+
+package value
+
+// Machine-checked contracts for package value (see /verif/DESIGN.md).
+// This file contains no declarations: it only carries specification comments
+// that the elkvc verification-condition generator reads.
+
+/*@
+// ---- abstract view of Int values -------------------------------------------
+// intval(v): the mathematical integer denoted by an Int value
+spec fn isSmall(v Value) bool = v.flag == SMALL_INT_FLAG
+spec fn isBig(v Value) bool = v.flag == REFERENCE_FLAG && v.data == tagof(*BigInt) && v.ptr != nil
+spec fn isInt(v Value) bool = isSmall(v) || isBig(v)
+spec fn intval(v Value) int = ite(isSmall(v), wrapS64(v.data), bigval(v.ptr))
+spec fn fitsSmall(x int) bool = MinSmallInt <= x && x <= MaxSmallInt
+// canonical representation: a big integer is used only when the value does not fit a machine word
+spec fn canon(v Value) bool = isSmall(v) || (isBig(v) && !fitsSmall(bigval(v.ptr)))
+
+func (SmallInt).AddOverflow(a, b) (result, ok)
+  props C06
+  ensures fits: ok <==> fitsSmall(a + b)
+  ensures exact: ok ==> result == a + b
+
+func (SmallInt).SubtractOverflow
+  props C06
+  ensures fits: ok <==> fitsSmall(a - b)
+  ensures exact: ok ==> result == a - b
+
+func (SmallInt).MultiplyOverflow
+  props C06
+  ensures fits: ok <==> fitsSmall(a * b)
+  ensures exact: ok ==> result == a * b
+
+func (SmallInt).DivideOverflow
+  props C06
+  ensures zero: b == 0 ==> !ok
+  ensures fits: b != 0 ==> (ok <==> fitsSmall(tdiv(a, b)))
+  ensures exact: ok ==> result == tdiv(a, b)
+
+// ---- error objects -------------------------------------------------------------
+// Error construction depends on the class table built at start-up; trusted.
+func NewError
+  trusted
+  assigns fresh
+  ensures ret != nil && fresh(ret) && ret.class == class
+
+func Errorf
+  trusted
+  assigns fresh
+  ensures ret != nil && fresh(ret) && ret.class == class
+
+spec fn isObj(v Value) bool = v.flag == REFERENCE_FLAG && v.data == tagof(*Object) && v.ptr != nil
+spec fn isErr(v Value, cls *Class) bool = isObj(v) && (*Object)(v.ptr).class == cls
+
+// ---- SmallInt (op) SmallInt / BigInt ------------------------------------------
+func (SmallInt).AddSmallInt
+  props C06
+  assigns nothing
+  ensures val: isInt(ret) && intval(ret) == i + other
+  ensures canon: canon(ret)
+
+func (SmallInt).AddBigInt
+  props C06
+  requires other != nil
+  assigns nothing
+  ensures val: isInt(ret) && intval(ret) == i + old(bigval(other))
+  ensures canon: canon(ret)
+
+func (SmallInt).SubtractSmallInt
+  props C06
+  assigns nothing
+  ensures val: isInt(ret) && intval(ret) == i - other
+  ensures canon: canon(ret)
+
+func (SmallInt).SubtractBigInt
+  props C06
+  requires other != nil
+  assigns nothing
+  ensures val: isInt(ret) && intval(ret) == i - old(bigval(other))
+  ensures canon: canon(ret)
+
+func (SmallInt).MultiplySmallInt
+  props C06
+  assigns nothing
+  ensures val: isInt(ret) && intval(ret) == i * other
+  ensures canon: canon(ret)
+
+func (SmallInt).MultiplyBigInt
+  props C06
+  requires other != nil
+  assigns nothing
+  ensures val: isInt(ret) && intval(ret) == i * old(bigval(other))
+  ensures canon: canon(ret)
+
+func (SmallInt).DivideSmallInt
+  props C06
+  assigns nothing
+  ensures zero: other == 0 ==> ret0 == Undefined && isErr(ret1, ZeroDivisionErrorClass)
+  ensures val: other != 0 ==> ret1 == Undefined && isInt(ret0) && intval(ret0) == tdiv(i, other)
+  ensures canon: other != 0 ==> canon(ret0)
+
+func (SmallInt).DivideBigInt
+  props C06
+  requires other != nil
+  assigns nothing
+  ensures zero: old(bigval(other)) == 0 ==> ret0 == Undefined && isErr(ret1, ZeroDivisionErrorClass)
+  ensures val: old(bigval(other)) != 0 ==> ret1 == Undefined && isInt(ret0) && intval(ret0) == tdiv(i, old(bigval(other)))
+  ensures canon: old(bigval(other)) != 0 ==> canon(ret0)
+
+func (SmallInt).ModuloSmallInt
+  props C06
+  assigns nothing
+  ensures zero: other == 0 ==> ret0 == Undefined && isErr(ret1, ZeroDivisionErrorClass)
+  ensures val: other != 0 ==> ret1 == Undefined && isInt(ret0) && intval(ret0) == tmod(i, other)
+  ensures canon: other != 0 ==> canon(ret0)
+
+func (SmallInt).ModuloBigInt
+  props C06
+  requires other != nil
+  assigns nothing
+  ensures zero: old(bigval(other)) == 0 ==> ret0 == Undefined && isErr(ret1, ZeroDivisionErrorClass)
+  ensures val: old(bigval(other)) != 0 ==> ret1 == Undefined && isInt(ret0) && intval(ret0) == tmod(i, old(bigval(other)))
+  ensures canon: old(bigval(other)) != 0 ==> canon(ret0)
+
+func (SmallInt).ExponentiateSmallInt
+  props C06
+  assigns nothing
+  ensures val: other >= 0 ==> isInt(ret) && intval(ret) == ipow(i, other)
+  ensures canon: canon(ret)
+
+func (SmallInt).ExponentiateBigInt
+  props C06
+  requires other != nil
+  assigns nothing
+  ensures val: old(bigval(other)) >= 0 ==> isInt(ret) && intval(ret) == ipow(i, old(bigval(other)))
+  ensures canon: canon(ret)
+
+// dispatch on the representation of an Int operand (typed opcodes, Go backend)
+func (SmallInt).AddInt
+  props C06 C08
+  requires isInt(other)
+  assigns nothing
+  ensures val: isInt(ret) && intval(ret) == i + old(intval(other))
+  ensures canon: canon(ret)
+
+func (SmallInt).SubtractInt
+  props C06 C08
+  requires isInt(other)
+  assigns nothing
+  ensures val: isInt(ret) && intval(ret) == i - old(intval(other))
+  ensures canon: canon(ret)
+
+func (SmallInt).MultiplyInt
+  props C06 C08
+  requires isInt(other)
+  assigns nothing
+  ensures val: isInt(ret) && intval(ret) == i * old(intval(other))
+  ensures canon: canon(ret)
+
+func (SmallInt).DivideInt
+  props C06 C08
+  requires isInt(other)
+  assigns nothing
+  ensures zero: old(intval(other)) == 0 ==> ret0 == Undefined && isErr(ret1, ZeroDivisionErrorClass)
+  ensures val: old(intval(other)) != 0 ==> ret1 == Undefined && isInt(ret0) && intval(ret0) == tdiv(i, old(intval(other)))
+  ensures canon: old(intval(other)) != 0 ==> canon(ret0)
+
+func (SmallInt).ModuloInt
+  props C06 C08
+  requires isInt(other)
+  assigns nothing
+  ensures zero: old(intval(other)) == 0 ==> ret0 == Undefined && isErr(ret1, ZeroDivisionErrorClass)
+  ensures val: old(intval(other)) != 0 ==> ret1 == Undefined && isInt(ret0) && intval(ret0) == tmod(i, old(intval(other)))
+  ensures canon: old(intval(other)) != 0 ==> canon(ret0)
+
+func (SmallInt).ExponentiateInt
+  props C06 C08
+  requires isInt(other)
+  assigns nothing
+  ensures val: old(intval(other)) >= 0 ==> isInt(ret) && intval(ret) == ipow(i, old(intval(other)))
+  ensures canon: canon(ret)
+
+// ---- BigInt receiver ------------------------------------------------------------
+func (*BigInt).AddSmallInt
+  props C06
+  requires i != nil
+  assigns nothing
+  ensures val: isInt(ret) && intval(ret) == old(bigval(i)) + other
+  ensures canon: canon(ret)
+
+func (*BigInt).AddBigInt
+  props C06
+  requires i != nil
+  requires other != nil
+  assigns nothing
+  ensures val: isInt(ret) && intval(ret) == old(bigval(i)) + old(bigval(other))
+  ensures canon: canon(ret)
+
+func (*BigInt).AddInt
+  props C06 C08
+  requires i != nil
+  requires isInt(other)
+  assigns nothing
+  ensures val: isInt(ret) && intval(ret) == old(bigval(i)) + old(intval(other))
+  ensures canon: canon(ret)
+
+func (*BigInt).SubtractSmallInt
+  props C06
+  requires i != nil
+  assigns nothing
+  ensures val: isInt(ret) && intval(ret) == old(bigval(i)) - other
+  ensures canon: canon(ret)
+
+func (*BigInt).SubtractBigInt
+  props C06
+  requires i != nil
+  requires other != nil
+  assigns nothing
+  ensures val: isInt(ret) && intval(ret) == old(bigval(i)) - old(bigval(other))
+  ensures canon: canon(ret)
+
+func (*BigInt).SubtractInt
+  props C06 C08
+  requires i != nil
+  requires isInt(other)
+  assigns nothing
+  ensures val: isInt(ret) && intval(ret) == old(bigval(i)) - old(intval(other))
+  ensures canon: canon(ret)
+
+func (*BigInt).MultiplySmallInt
+  props C06
+  requires i != nil
+  assigns nothing
+  ensures val: isInt(ret) && intval(ret) == old(bigval(i)) * other
+  ensures canon: canon(ret)
+
+func (*BigInt).MultiplyBigInt
+  props C06
+  requires i != nil
+  requires other != nil
+  assigns nothing
+  ensures val: isInt(ret) && intval(ret) == old(bigval(i)) * old(bigval(other))
+  ensures canon: canon(ret)
+
+func (*BigInt).MultiplyInt
+  props C06 C08
+  requires i != nil
+  requires isInt(other)
+  assigns nothing
+  ensures val: isInt(ret) && intval(ret) == old(bigval(i)) * old(intval(other))
+  ensures canon: canon(ret)
+
+func (*BigInt).DivideSmallInt
+  props C06
+  requires i != nil
+  assigns nothing
+  ensures zero: other == 0 ==> ret0 == Undefined && isErr(ret1, ZeroDivisionErrorClass)
+  ensures val: other != 0 ==> ret1 == Undefined && isInt(ret0) && intval(ret0) == tdiv(old(bigval(i)), other)
+  ensures canon: other != 0 ==> canon(ret0)
+
+func (*BigInt).DivideBigInt
+  props C06
+  requires i != nil
+  requires other != nil
+  assigns nothing
+  ensures zero: old(bigval(other)) == 0 ==> ret0 == Undefined && isErr(ret1, ZeroDivisionErrorClass)
+  ensures val: old(bigval(other)) != 0 ==> ret1 == Undefined && isInt(ret0) && intval(ret0) == tdiv(old(bigval(i)), old(bigval(other)))
+  ensures canon: old(bigval(other)) != 0 ==> canon(ret0)
+
+func (*BigInt).DivideInt
+  props C06 C08
+  requires i != nil
+  requires isInt(other)
+  assigns nothing
+  ensures zero: old(intval(other)) == 0 ==> ret0 == Undefined && isErr(ret1, ZeroDivisionErrorClass)
+  ensures val: old(intval(other)) != 0 ==> ret1 == Undefined && isInt(ret0) && intval(ret0) == tdiv(old(bigval(i)), old(intval(other)))
+  ensures canon: old(intval(other)) != 0 ==> canon(ret0)
+
+func (*BigInt).ModuloSmallInt
+  props C06
+  requires i != nil
+  assigns nothing
+  ensures zero: other == 0 ==> ret0 == Undefined && isErr(ret1, ZeroDivisionErrorClass)
+  ensures val: other != 0 ==> ret1 == Undefined && isInt(ret0) && intval(ret0) == tmod(old(bigval(i)), other)
+  ensures canon: other != 0 ==> canon(ret0)
+
+func (*BigInt).ModuloBigInt
+  props C06
+  requires i != nil
+  requires other != nil
+  assigns nothing
+  ensures zero: old(bigval(other)) == 0 ==> ret0 == Undefined && isErr(ret1, ZeroDivisionErrorClass)
+  ensures val: old(bigval(other)) != 0 ==> ret1 == Undefined && isInt(ret0) && intval(ret0) == tmod(old(bigval(i)), old(bigval(other)))
+  ensures canon: old(bigval(other)) != 0 ==> canon(ret0)
+
+func (*BigInt).ModuloInt
+  props C06 C08
+  requires i != nil
+  requires isInt(other)
+  assigns nothing
+  ensures zero: old(intval(other)) == 0 ==> ret0 == Undefined && isErr(ret1, ZeroDivisionErrorClass)
+  ensures val: old(intval(other)) != 0 ==> ret1 == Undefined && isInt(ret0) && intval(ret0) == tmod(old(bigval(i)), old(intval(other)))
+  ensures canon: old(intval(other)) != 0 ==> canon(ret0)
+
+func (*BigInt).ExponentiateSmallInt
+  props C06
+  requires i != nil
+  assigns nothing
+  ensures val: other >= 0 ==> isInt(ret) && intval(ret) == ipow(old(bigval(i)), other)
+  ensures canon: canon(ret)
+
+func (*BigInt).ExponentiateBigInt
+  props C06
+  requires i != nil
+  requires other != nil
+  assigns nothing
+  ensures val: old(bigval(other)) >= 0 ==> isInt(ret) && intval(ret) == ipow(old(bigval(i)), old(bigval(other)))
+  ensures canon: canon(ret)
+
+func (*BigInt).ExponentiateInt
+  props C06 C08
+  requires i != nil
+  requires isInt(other)
+  assigns nothing
+  ensures val: old(intval(other)) >= 0 ==> isInt(ret) && intval(ret) == ipow(old(bigval(i)), old(intval(other)))
+  ensures canon: canon(ret)
+
+func (*BigInt).Normalize
+  props C06
+  requires i != nil
+  assigns nothing
+  ensures val: isInt(ret) && intval(ret) == old(bigval(i))
+  ensures canon: canon(ret)
+
+func (*BigInt).Negate
+  props C06
+  requires i != nil
+  assigns nothing
+  ensures ret != nil && bigval(ret) == -old(bigval(i))
+
+func (*BigInt).Increment
+  props C06
+  requires i != nil
+  assigns nothing
+  ensures ret != nil && bigval(ret) == old(bigval(i)) + 1
+
+func (*BigInt).Decrement
+  props C06
+  requires i != nil
+  assigns nothing
+  ensures val: isInt(ret) && intval(ret) == old(bigval(i)) - 1
+  ensures canon: canon(ret)
+
+func (*BigInt).IsZero
+  props C06
+  requires i != nil
+  assigns nothing
+  ensures ret <==> bigval(i) == 0
+
+func (*BigInt).IsSmallInt
+  props C06
+  requires i != nil
+  assigns nothing
+  ensures ret <==> fitsSmall(bigval(i))
+
+// parity tests must not modify the receiver (frame)
+func (*BigInt).IsEven
+  props C06
+  requires i != nil
+  assigns nothing
+  ensures ret <==> emod(old(bigval(i)), 2) == 0
+
+func (*BigInt).IsOdd
+  props C06
+  requires i != nil
+  assigns nothing
+  ensures ret <==> emod(old(bigval(i)), 2) == 1
+
+func (*BigInt).Cmp
+  props C06 C18
+  requires x != nil && y != nil
+  assigns nothing
+  ensures ret == ite(bigval(x) < bigval(y), -1, ite(bigval(x) == bigval(y), 0, 1))
+
+func (*BigInt).CompareSmallInt
+  props C06 C18
+  requires i != nil
+  assigns nothing
+  ensures ret == ite(bigval(i) < other, -1, ite(bigval(i) == other, 0, 1))
+
+func (*BigInt).CompareBigInt
+  props C06 C18
+  requires i != nil && other != nil
+  assigns nothing
+  ensures ret == ite(bigval(i) < bigval(other), -1, ite(bigval(i) == bigval(other), 0, 1))
+
+func (*BigInt).CompareInt
+  props C06 C18 C08
+  requires i != nil && isInt(other)
+  assigns nothing
+  ensures ret == ite(bigval(i) < intval(other), -1, ite(bigval(i) == intval(other), 0, 1))
+
+func (*BigInt).EqualSmallInt
+  props C06 C18
+  requires i != nil
+  assigns nothing
+  ensures ret <==> bigval(i) == other
+
+func (*BigInt).EqualBigInt
+  props C06 C18
+  requires i != nil && other != nil
+  assigns nothing
+  ensures ret <==> bigval(i) == bigval(other)
+
+func (*BigInt).EqualInt
+  props C06 C18 C08
+  requires i != nil && isInt(other)
+  assigns nothing
+  ensures ret <==> bigval(i) == intval(other)
+
+// ---- unary, comparisons ---------------------------------------------------------
+func (SmallInt).NegateVal
+  props C06
+  assigns nothing
+  ensures val: isInt(ret) && intval(ret) == -i
+  ensures canon: canon(ret)
+
+func (SmallInt).Increment
+  props C06
+  assigns nothing
+  ensures val: isInt(ret) && intval(ret) == i + 1
+  ensures canon: canon(ret)
+
+func (SmallInt).Decrement
+  props C06
+  assigns nothing
+  ensures val: isInt(ret) && intval(ret) == i - 1
+  ensures canon: canon(ret)
+
+func (SmallInt).Cmp
+  props C06 C18
+  ensures ret == ite(x < y, -1, ite(x == y, 0, 1))
+
+func (SmallInt).CompareSmallInt
+  props C06 C18
+  ensures ret == ite(i < other, -1, ite(i == other, 0, 1))
+
+func (SmallInt).CompareBigInt
+  props C06 C18
+  requires other != nil
+  assigns nothing
+  ensures ret == ite(i < bigval(other), -1, ite(i == bigval(other), 0, 1))
+
+func (SmallInt).CompareInt
+  props C06 C18 C08
+  requires isInt(other)
+  assigns nothing
+  ensures ret == ite(i < intval(other), -1, ite(i == intval(other), 0, 1))
+
+func (SmallInt).GreaterThanSmallInt
+  props C06 C18
+  assigns nothing
+  ensures ret <==> i > other
+
+func (SmallInt).GreaterThanBigInt
+  props C06 C18
+  requires other != nil
+  assigns nothing
+  ensures ret <==> i > bigval(other)
+
+func (SmallInt).GreaterThanInt
+  props C06 C18 C08
+  requires isInt(other)
+  assigns nothing
+  ensures ret <==> i > intval(other)
+
+func (SmallInt).GreaterThanEqualSmallInt
+  props C06 C18
+  assigns nothing
+  ensures ret <==> i >= other
+
+func (SmallInt).GreaterThanEqualBigInt
+  props C06 C18
+  requires other != nil
+  assigns nothing
+  ensures ret <==> i >= bigval(other)
+
+func (SmallInt).GreaterThanEqualInt
+  props C06 C18 C08
+  requires isInt(other)
+  assigns nothing
+  ensures ret <==> i >= intval(other)
+
+func (SmallInt).LessThanSmallInt
+  props C06 C18
+  assigns nothing
+  ensures ret <==> i < other
+
+func (SmallInt).LessThanBigInt
+  props C06 C18
+  requires other != nil
+  assigns nothing
+  ensures ret <==> i < bigval(other)
+
+func (SmallInt).LessThanInt
+  props C06 C18 C08
+  requires isInt(other)
+  assigns nothing
+  ensures ret <==> i < intval(other)
+
+func (SmallInt).LessThanEqualSmallInt
+  props C06 C18
+  assigns nothing
+  ensures ret <==> i <= other
+
+func (SmallInt).LessThanEqualBigInt
+  props C06 C18
+  requires other != nil
+  assigns nothing
+  ensures ret <==> i <= bigval(other)
+
+func (SmallInt).LessThanEqualInt
+  props C06 C18 C08
+  requires isInt(other)
+  assigns nothing
+  ensures ret <==> i <= intval(other)
+
+func (SmallInt).EqualSmallInt
+  props C06 C18
+  assigns nothing
+  ensures ret <==> i == other
+
+func (SmallInt).EqualBigInt
+  props C06 C18
+  requires other != nil
+  assigns nothing
+  ensures ret <==> i == bigval(other)
+
+func (SmallInt).EqualInt
+  props C06 C18 C08
+  requires isInt(other)
+  assigns nothing
+  ensures ret <==> i == intval(other)
+
+func (*BigInt).GreaterThanSmallInt
+  props C06 C18
+  requires i != nil
+  assigns nothing
+  ensures ret <==> bigval(i) > other
+
+func (*BigInt).GreaterThanBigInt
+  props C06 C18
+  requires i != nil && other != nil
+  assigns nothing
+  ensures ret <==> bigval(i) > bigval(other)
+
+func (*BigInt).GreaterThanInt
+  props C06 C18 C08
+  requires i != nil && isInt(other)
+  assigns nothing
+  ensures ret <==> bigval(i) > intval(other)
+
+func (*BigInt).GreaterThanEqualSmallInt
+  props C06 C18
+  requires i != nil
+  assigns nothing
+  ensures ret <==> bigval(i) >= other
+
+func (*BigInt).GreaterThanEqualBigInt
+  props C06 C18
+  requires i != nil && other != nil
+  assigns nothing
+  ensures ret <==> bigval(i) >= bigval(other)
+
+func (*BigInt).GreaterThanEqualInt
+  props C06 C18 C08
+  requires i != nil && isInt(other)
+  assigns nothing
+  ensures ret <==> bigval(i) >= intval(other)
+
+func (*BigInt).LessThanSmallInt
+  props C06 C18
+  requires i != nil
+  assigns nothing
+  ensures ret <==> bigval(i) < other
+
+func (*BigInt).LessThanBigInt
+  props C06 C18
+  requires i != nil && other != nil
+  assigns nothing
+  ensures ret <==> bigval(i) < bigval(other)
+
+func (*BigInt).LessThanInt
+  props C06 C18 C08
+  requires i != nil && isInt(other)
+  assigns nothing
+  ensures ret <==> bigval(i) < intval(other)
+
+func (*BigInt).LessThanEqualSmallInt
+  props C06 C18
+  requires i != nil
+  assigns nothing
+  ensures ret <==> bigval(i) <= other
+
+func (*BigInt).LessThanEqualBigInt
+  props C06 C18
+  requires i != nil && other != nil
+  assigns nothing
+  ensures ret <==> bigval(i) <= bigval(other)
+
+func (*BigInt).LessThanEqualInt
+  props C06 C18 C08
+  requires i != nil && isInt(other)
+  assigns nothing
+  ensures ret <==> bigval(i) <= intval(other)
+
+// ---- package-level dispatchers on two Int operands (typed opcodes and the Go backend) --
+func AddInts
+  props C06 C08
+  requires isInt(left) && isInt(right)
+  assigns nothing
+  ensures val: isInt(ret) && intval(ret) == old(intval(left)) + old(intval(right))
+  ensures canon: canon(ret)
+
+func SubtractInts
+  props C06 C08
+  requires isInt(left) && isInt(right)
+  assigns nothing
+  ensures val: isInt(ret) && intval(ret) == old(intval(left)) - old(intval(right))
+  ensures canon: canon(ret)
+
+func MultiplyInts
+  props C06 C08
+  requires isInt(left) && isInt(right)
+  assigns nothing
+  ensures val: isInt(ret) && intval(ret) == old(intval(left)) * old(intval(right))
+  ensures canon: canon(ret)
+
+func DivideInts
+  props C06 C08
+  requires isInt(left) && isInt(right)
+  assigns nothing
+  ensures zero: old(intval(right)) == 0 ==> ret0 == Undefined && isErr(ret1, ZeroDivisionErrorClass)
+  ensures val: old(intval(right)) != 0 ==> ret1 == Undefined && isInt(ret0) && intval(ret0) == tdiv(old(intval(left)), old(intval(right)))
+  ensures canon: old(intval(right)) != 0 ==> canon(ret0)
+
+func ModuloInts
+  props C06 C08
+  requires isInt(left) && isInt(right)
+  assigns nothing
+  ensures zero: old(intval(right)) == 0 ==> ret0 == Undefined && isErr(ret1, ZeroDivisionErrorClass)
+  ensures val: old(intval(right)) != 0 ==> ret1 == Undefined && isInt(ret0) && intval(ret0) == tmod(old(intval(left)), old(intval(right)))
+  ensures canon: old(intval(right)) != 0 ==> canon(ret0)
+
+func ExponentiateInts
+  props C06 C08
+  requires isInt(left) && isInt(right)
+  assigns nothing
+  ensures val: old(intval(right)) >= 0 ==> isInt(ret) && intval(ret) == ipow(old(intval(left)), old(intval(right)))
+  ensures canon: canon(ret)
+
+func CompareInts
+  props C06 C08
+  requires isInt(left) && isInt(right)
+  assigns nothing
+  ensures ret == ite(intval(left) < intval(right), -1, ite(intval(left) == intval(right), 0, 1))
+
+func GreaterThanInts
+  props C06 C08
+  requires isInt(left) && isInt(right)
+  assigns nothing
+  ensures ret <==> old(intval(left)) > old(intval(right))
+
+func GreaterThanEqualInts
+  props C06 C08
+  requires isInt(left) && isInt(right)
+  assigns nothing
+  ensures ret <==> old(intval(left)) >= old(intval(right))
+
+func LessThanInts
+  props C06 C08
+  requires isInt(left) && isInt(right)
+  assigns nothing
+  ensures ret <==> old(intval(left)) < old(intval(right))
+
+func LessThanEqualInts
+  props C06 C08
+  requires isInt(left) && isInt(right)
+  assigns nothing
+  ensures ret <==> old(intval(left)) <= old(intval(right))
+
+func NegateInt
+  props C06 C08
+  requires isInt(val)
+  assigns nothing
+  ensures val: isInt(ret) && intval(ret) == -old(intval(val))
+  ensures canon: canon(ret)
+
+func IncrementInt
+  props C06 C08
+  requires isInt(val)
+  assigns nothing
+  ensures val: isInt(ret) && intval(ret) == old(intval(val)) + 1
+  ensures canon: canon(ret)
+
+func DecrementInt
+  props C06 C08
+  requires isInt(val)
+  assigns nothing
+  ensures val: isInt(ret) && intval(ret) == old(intval(val)) - 1
+  ensures canon: canon(ret)
+@*/
